@@ -26,7 +26,7 @@ func init() {
 	vlib.Register(&vlib.Prop{
 		ID:    "C10",
 		Level: "exploration",
-		Cases: func(tier string) int { return forcedCases + vlib.TierN(tier, 600, 16000) },
+		Cases: func(tier string) int { return forcedCases + vlib.TierN(tier, 600, 320000) },
 		Rule: "forced part: the RunHandlers goroutine is parked right after a handler's Started() channel closed; the goroutine that waited on Started() then calls Stop() and Stopped() (must not panic, Stopped() must be non-nil) and, after the release, Stopped() must close; " +
 			"x {handler added before Run, added after Run and started by RunHandlers} x {1..3 handlers} x {scripted, GoChannel subscriber} x repeats. " +
 			"random part: lifecycle programs over {AddHandler before/after Run, Run, RunHandlers x1..4 sequentially or concurrently, wait Started, emit a message the instant Running() closes, Stop a subset, emit again, end by stopping all handlers / cancelling the Run context / Close, second Run} with 1..5 handlers, " +
